@@ -1,14 +1,20 @@
 #!/bin/sh
 # usage: scripts/regress.sh [log]   runs every seeded change, every benign refactoring and every hand-written
 # mutant against a scratch worktree of /repo (so /repo itself stays free) and prints one line per change.
+# REGRESS_PARTS (default "seeded benign mutants") selects the parts; REGRESS_SEEDS is a glob under seeded/.
 log=${1:-/tmp/regress.log}
-wt=/tmp/regress-repo
+wt=${REGRESS_WT:-/tmp/regress-repo}
+parts=${REGRESS_PARTS:-"seeded benign mutants"}
 git -C /repo worktree remove --force $wt >/dev/null 2>&1
 git -C /repo worktree add -q --detach $wt HEAD || exit 2
 export VERIF_REPO=$wt
 V=${VERIF_DIR:-/verif}; export VERIF_DIR=$V; cd "$V"
 : > $log
-for d in seeded/[SA][0-9]*; do
+case "$parts" in *seeded*) ;; *) skip_seeded=1;; esac
+case "$parts" in *benign*) ;; *) skip_benign=1;; esac
+case "$parts" in *mutants*) ;; *) skip_mutants=1;; esac
+for d in seeded/${REGRESS_SEEDS:-[SA][0-9]*}; do
+	[ -n "$skip_seeded" ] && break
 	id=$(basename $d)
 	prop=$(python3 -c "import json;print(json.load(open('$d/meta.json'))['breaks_property'])")
 	out=$(seeded/run.sh $id $prop 2>&1)
@@ -16,9 +22,11 @@ for d in seeded/[SA][0-9]*; do
 	echo "$out" | grep -E "^violation" | head -1 | cut -c1-200 >> $log
 done
 for d in benign/ben*; do
+	[ -n "$skip_benign" ] && break
 	benign/run.sh $d 2>&1 | grep -E "^(==|NOTE|VIOLATION|CANNOT)" | cut -c1-200 >> $log
 done
 for m in mutants/*.diff; do
+	[ -n "$skip_mutants" ] && break
 	prop=$(basename $m | sed -E 's/^(benign_)?(c[0-9]+)_.*/\2/' | tr a-z A-Z)
 	mutants/run.sh $prop $m 2>&1 | grep -E "^== " >> $log
 done
